@@ -165,6 +165,7 @@ type SrvFid struct {
 	fid       uint32
 	refcount  int
 	bound     bool        // the connection's fid table holds a reference (the fid is valid for the client)
+	pending   bool        // created by a Tauth, Tattach or Twalk that has not been answered yet
 	opened    bool        // True if the SrvFid is opened
 	Fconn     *Conn       // Connection the SrvFid belongs to
 	Omode     uint8       // Open mode (O* flags), if the fid is opened
@@ -495,9 +496,18 @@ func (conn *Conn) FidGet(fidno uint32) *SrvFid {
 	// the reference is taken under the table's lock, so that the fid cannot
 	// drop to zero (and be destroyed) between the lookup and the IncRef
 	conn.Lock()
-	fid, present := conn.fidpool[fidno]
-	if present {
-		fid.IncRef()
+	fid := conn.fidpool[fidno]
+	if fid != nil {
+		// a fid that the Tauth, Tattach or Twalk creating it has not been
+		// answered for yet only reserves its number: it is not valid
+		fid.Lock()
+		if fid.pending {
+			fid.Unlock()
+			conn.Unlock()
+			return nil
+		}
+		fid.refcount++
+		fid.Unlock()
 	}
 	conn.Unlock()
 
@@ -506,7 +516,8 @@ func (conn *Conn) FidGet(fidno uint32) *SrvFid {
 
 // Creates a new SrvFid struct for the fidno integer. Returns nil
 // if the SrvFid for that number already exists. The returned fid
-// has reference count set to 1.
+// has reference count set to 1. It only reserves its number, and FidGet
+// does not find it, until the reply that makes it valid has been produced.
 func (conn *Conn) FidNew(fidno uint32) *SrvFid {
 	conn.Lock()
 	_, present := conn.fidpool[fidno]
@@ -518,6 +529,7 @@ func (conn *Conn) FidNew(fidno uint32) *SrvFid {
 	fid := new(SrvFid)
 	fid.fid = fidno
 	fid.refcount = 1
+	fid.pending = true
 	fid.Fconn = conn
 	conn.fidpool[fidno] = fid
 	conn.Unlock()
@@ -541,6 +553,7 @@ func (fid *SrvFid) bind() {
 	fid.Lock()
 	fid.refcount++
 	fid.bound = true
+	fid.pending = false
 	fid.Unlock()
 }
 
